@@ -71,6 +71,13 @@ PROPS = {
         ],
         "assumptions": ["templates of the generated family use no time/random functions (now, randAlpha, uuidv4, genCA ... are classified non-deterministic by design and excluded)"],
     },
+    "C20": {
+        "corr": [("crash", {"quick": 500, "thorough": 20000}), ("strvals", {"quick": 1500, "thorough": 30000}), ("storage", {"quick": 300, "thorough": 5000}), ("index", {"quick": 400, "thorough": 8000}), ("manifests", {"quick": 300, "thorough": 6000})],
+        "trusted_base": [
+            "entry points whose parsing is a library (YAML, JSON, tar/gzip, OpenPGP, text/template, jsonschema) have no Lean model: for them the correspondence is robustness testing under recover + watchdog, labelled so; modelled panic sites: strvals type assertions (with their recover), Secrets/ConfigMaps Get on undecodable records, nil index entries, import-values type assertions",
+        ],
+        "assumptions": ["hang = no return within 20 s"],
+    },
     "C08": {
         "corr": [("manifests", {"quick": 1500, "thorough": 30000})],
         "trusted_base": [
